@@ -32,7 +32,7 @@ KC, KE = 0x123456, 0x654321
 
 def bound(tier):
     return ("4 directives x lists of length 1..3 over 19 value kinds (17+289+4913 lists each); 259 .ascii strings; .incbin: 9 lengths "
-            "x 2 placements x 2 file names x 2 buses, each file also rewritten with new content of the same length and re-assembled; lists of 4..300 values x 4 directives" + ("; plus every file length 0..300 at the bank end" if tier == "thorough" else ""))
+            "x 2 placements x 2 file names x 2 buses, each file also rewritten with new content of the same length and re-assembled; lists of 4..300 values x 4 directives; each directive inside 9 kinds of container x 6 value kinds; 14 edge-case .ascii texts x 4 placements" + ("; plus every file length 0..300 at the bank end" if tier == "thorough" else ""))
 
 
 def cases(tier, seed):
@@ -41,6 +41,9 @@ def cases(tier, seed):
             for k0 in range(len(KINDS)):
                 yield ("data", d, n, k0)
     yield ("ascii",)
+    yield ("ascii-edge",)
+    for d in WIDTH:
+        yield ("contexts", d)
     for d in WIDTH:
         yield ("long-list", d)
     for busname in ("low_rom", "high_rom"):
@@ -205,6 +208,61 @@ def run_incbin(busname, place, fname, tier):
     return {"evals": evals, "nt_count": nt, "outcome": sorted(outcomes), "violations": viol[:10], "example": example}
 
 
+def run_contexts(d):
+    """The directive inside every kind of container: same packing, labels after it still follow."""
+    w = WIDTH[d]
+    ref = refbus.lorom()
+    viol = []
+    evals = 0
+    vals = {"0x12345678": 0x12345678, "-2": -2, "back": ORG, "fwd": None, "kc": KC, "kc+back": KC + ORG}
+    wrappers = {
+        "block": ("{\n%s\n}\n", 1), "scope": (".scope ns {\n%s\n}\n", 1), "macro": (".macro mw() {\n%s\n}\nmw()\n", 1),
+        "macro-twice": (".macro mw() {\n%s\n}\nmw()\nmw()\n", 2), "for": (".for i := 0, 2 {\n%s\n}\n", 2), "if": (".if kc {\n%s\n}\n", 1),
+        "if-else": (".if 0 {\n.db 0xEE\n} else {\n%s\n}\n", 1), "include": (".include 'dinc.s'\n", 1), "nested": ("{\n.scope n2 {\n.for j := 0, 1 {\n%s\n}\n}\n}\n", 1),
+    }
+    for wname, (tmpl, times) in wrappers.items():
+        for vtext in vals:
+            line = f"{d} {vtext}, 1"
+            body = tmpl % line if "%s" in tmpl else tmpl
+            files = {"dinc.s": line + "\n"}
+            n_after = ORG + 1 + times * 2 * w
+            env = dict(vals, fwd=n_after + 2)
+            v = env[vtext]
+            src = f"kc := 0x{KC:x}\n*=0x{ORG:06x}\nback:\n.db 0x11\n{body}after:\n.dw 0xEEDD\nfwd:\n.db 0x22\n"
+            one = (v % (256 ** w)).to_bytes(w, "little") + (1).to_bytes(w, "little")
+            exp = b"\x11" + one * times + b"\xdd\xee\x22"
+            out = impl.assemble(src, rom="low_rom", files=files)
+            evals += 1
+            if not out.accepted:
+                viol.append({"key": f"data:rejected:{d}:in-{wname}", "msg": f"{out.brief()} :: {src!r}"})
+            elif out.blocks != [(ref.phys(ORG), exp)]:
+                viol.append({"key": f"data:wrong-bytes:{d}:in-{wname}", "msg": f"expected {exp.hex()} got {out.brief()} :: {src!r}"})
+            elif dict(out.labels).get("after") != n_after:
+                viol.append({"key": f"data:wrong-layout:{d}:in-{wname}", "msg": f"after={dict(out.labels).get('after')} expected {n_after:#x} :: {src!r}"})
+    return {"evals": evals, "nt_count": evals, "outcome": "contexts-ok" if not viol else "CONTEXT-VIOLATION", "violations": viol[:8]}
+
+
+def run_ascii_edge():
+    """Empty, long, punctuation-only and non-ASCII strings; several .ascii in a row; .ascii inside containers."""
+    ref = refbus.lorom()
+    viol = []
+    evals = 0
+    texts = ["", "a" * 300, " !#$%&()*+,-./:;<=>?@[]^_`{|}~", "0123456789", "x" * 255 + "y", "tab\there", "caf\u00e9", "{{a}}", ".db 1", "a = 1",
+             "*=0x8000", "/* c */", "; c", "a\\\\b"]
+    for t in texts:
+        for tmpl in (".ascii '%s'\n", "{\n.ascii '%s'\n}\n", ".ascii '%s'\n.ascii '%s'\n", ".macro ma() {\n.ascii '%s'\n}\nma()\n"):
+            n = tmpl.count("%s")
+            src = f"*=0x{ORG:06x}\n" + (tmpl % ((t,) * n)) + "after:\n.dw 0xEEDD\n"
+            data = t.encode("ascii", errors="ignore") * n
+            out = impl.assemble(src, rom="low_rom")
+            evals += 1
+            if not out.accepted:
+                viol.append({"key": "ascii:rejected", "msg": f"{out.brief()} :: {src[:120]!r}"})
+            elif out.blocks != [(ref.phys(ORG), data + b"\xdd\xee")] or dict(out.labels).get("after") != ORG + len(data):
+                viol.append({"key": "ascii:wrong-bytes-or-layout", "msg": f"text {t[:40]!r} x{n}: got {out.brief()[:120]} after={dict(out.labels).get('after')}"})
+    return {"evals": evals, "nt_count": evals, "outcome": "ascii-edge-ok" if not viol else "ASCII-EDGE-VIOLATION", "violations": viol[:8]}
+
+
 def run_long_list(d):
     """Lists of 4..300 values: every element packed to exactly its width, in order, whatever the list length."""
     w = WIDTH[d]
@@ -232,6 +290,10 @@ def run_long_list(d):
 
 
 def run_case(case):
+    if case[0] == "contexts":
+        return run_contexts(case[1])
+    if case[0] == "ascii-edge":
+        return run_ascii_edge()
     if case[0] == "long-list":
         return run_long_list(case[1])
     if case[0] == "data":
